@@ -8,9 +8,10 @@
 (* far and the outstanding GoingUp deferrals.                               *)
 (*                                                                          *)
 (* One action per PUBLIC call made from outside core (register,             *)
-(* call_when_ready, listen_to_dependencies, goUp, a deferral being called,  *)
-(* quit).  What happens INSIDE such a call - which ready waiter is invoked  *)
-(* first, whether a registration made by a callback fires its dependents    *)
+(* call_when_ready, listen_to_dependencies, goUp, a deferral being obtained *)
+(* or called, quit).  What happens INSIDE such a call - which ready waiter  *)
+(* is invoked first, whether a registration made by a callback fires its    *)
+(* dependents                                                               *)
 (* nested or from the outer loop - is latitude the property leaves open:    *)
 (* Settle computes EVERY order in which ready waiters can be fired, and the *)
 (* action's expectation is the SET of callback logs (exp.logs).  The final  *)
